@@ -83,6 +83,9 @@ def build_state(resources, pk=False, temporal_prop=None, reverse_row_keys=False)
     return st
 
 
+options_after_mutation = [False]
+
+
 def run_dump(st, d, how='path', **options):
     """Dump st. Returns (emitted rows via results(), descriptor, stats, root dir of the extracted dump)."""
     if how == 'path':
@@ -91,13 +94,50 @@ def run_dump(st, d, how='path', **options):
     else:
         out = os.path.join(d, 'out.zip')
         step = core.dataflows.dump_to_zip(out, **options)
-    rows, dp, stats = core.Flow(core.from_state(st), step).results()
+    links = [core.from_state(st), step]
+    if options_after_mutation[0]:
+        def mutate(row):
+            # edits the row objects that have already passed the dumper
+            for k in list(row):
+                v = row[k]
+                if isinstance(v, str):
+                    row[k] = v + '~later'
+                elif isinstance(v, bool):
+                    row[k] = not v
+                elif isinstance(v, int):
+                    row[k] = v + 1
+                elif isinstance(v, list):
+                    v.append('later')
+                elif isinstance(v, dict):
+                    v['later'] = 1
+        captured = []
+
+        def capture(package):
+            yield package.pkg
+            for res in package:
+                mine = []
+                captured.append(mine)
+
+                def it(res=res, mine=mine):
+                    for r in res:
+                        mine.append(copy.deepcopy(r))
+                        yield r
+                yield it()
+        links = [core.from_state(st), step, capture, mutate]
+        _, dp, stats = core.Flow(*links).results(on_error=None)
+        rows = None
+    else:
+        rows, dp, stats = core.Flow(*links).results()
     if how == 'zip':
         root = os.path.join(d, 'unzipped')
         with zipfile.ZipFile(out) as z:
             z.extractall(root)
     else:
         root = out
+    if rows is None:
+        # what entered the dumper = what it emitted at that moment (captured right behind it), re-cast like results() does
+        back = core.materialise(core.from_state(core.State(copy.deepcopy(dp.descriptor), captured)), via='results')
+        rows = back.rows
     return rows, copy.deepcopy(dp.descriptor), stats, root, out
 
 
